@@ -577,9 +577,10 @@ func runDisputeHistory(t *testing.T, seed int64) (string, map[string]int, string
 		steps = append(steps, coqStep(res, w.snap(), nil))
 		stats[fmt.Sprintf("%s/%d", res.name, res.result)]++
 	}
-	for _, a := range []int{1, nVals + 3, w.team} {
-		w.s.MintTokens(w.accts[a], math.NewInt(200_000*loyaPerTRB))
-	}
+	// a donor that never votes holds the coins for the (large) offers of later rounds: handing them to the voters up front
+	// would make the token-holder group large enough for a quorum in the first round
+	donor := nVals + 2
+	w.s.MintTokens(w.accts[donor], math.NewInt(600_000*loyaPerTRB))
 	init := w.snap()
 	if tippers {
 		block(time.Duration(1+r.Intn(3))*time.Second, func() {
@@ -841,7 +842,11 @@ func runDisputeHistory(t *testing.T, seed int64) (string, map[string]int, string
 				}
 			} else {
 				// a later round: the offer may be far above the round fee (only the round fee is charged)
-				propose(pick(r, full, full, bmul(full, bi(5)), bmul(full, bi(12)), bquo(full, bi(2))), false)
+				offer := pick(r, full, full, bmul(full, bi(5)), bmul(full, bi(12)), bquo(full, bi(2)))
+				do("BankSend", donor, nil, func(ctx sdk.Context) error {
+					return w.s.Bankkeeper.SendCoins(ctx, w.accts[donor], w.accts[proposer], sdk.NewCoins(w.coin(offer)))
+				})
+				propose(offer, false)
 			}
 		})
 		// votes: in the last round the team decides; earlier rounds stay without quorum
@@ -849,6 +854,10 @@ func runDisputeHistory(t *testing.T, seed int64) (string, map[string]int, string
 			// reporters and their selectors in either order (a selector voting after its reporter takes its share out of
 			// the reporter's recorded power), the disputed reporter too
 			voters := []int{nVals + 3, nVals, 1, 0, nVals + 1}
+			if round < rounds {
+				// an earlier round has to end without quorum: the disputed reporter and its other selector stay away
+				voters = []int{nVals + 3, nVals, 1}
+			}
 			r.Shuffle(len(voters), func(a, b int) { voters[a], voters[b] = voters[b], voters[a] })
 			if round == rounds {
 				voters = append(voters, w.team)
